@@ -9,9 +9,12 @@ import (
 	"time"
 
 	"github.com/go-i2p/common/data"
+	"github.com/go-i2p/common/lease"
+	"github.com/go-i2p/common/router_address"
 
 	"verifharness/core"
 	"verifharness/gen"
+	rm "verifharness/refmodel"
 )
 
 // C12 — Integer, Date and String primitives are exact inverses within their domain.
@@ -233,6 +236,12 @@ func runC12(c *core.Ctx) {
 		if err != nil || pd.Time().UnixMilli() != m || pd.Int() != int(m) {
 			c.Violate("data.ReadDate", "time-differs", sh, in, fmt.Sprintf("%d ms read back as %d", m, pd.Time().UnixMilli()))
 		}
+		// the same value where the library encodes a millisecond date itself: the end date of a Lease
+		if l, err := lease.NewLease(data.Hash{}, 1, time.UnixMilli(m)); err != nil || l == nil {
+			c.Violate("lease.NewLease", "in-domain-value-rejected", sh, in, fmt.Sprintf("%d ms: %v", m, err))
+		} else if ld := l.Date(); !bytes.Equal(ld.Bytes(), in) || ld.Time().UnixMilli() != m {
+			c.Violate("lease.NewLease", "stored-value-differs", sh, in, fmt.Sprintf("%d ms stored as %x", m, ld.Bytes()))
+		}
 		// seconds
 		s := m / 1000
 		d3, err := data.NewDateFromUnix(s)
@@ -308,6 +317,111 @@ func runC12(c *core.Ctx) {
 		}
 	})
 	c.Exhaustive("string constructors at every length 0..300")
+
+	// the same strings where the library frames them itself: as key and as value of a Mapping
+	// (alone, first and last of several pairs) and as the transport style of a RouterAddress, at
+	// every length 0..255 - written by the independent encoder and read by the library, and
+	// written by the library and read back
+	c.Job("strings-in-use", 256*c.N(4, 40), func(i int, r *core.Rand) {
+		n := i % 256
+		content := r.Bytes(n)
+		if (i/256)%2 == 1 {
+			content = utf8OfLen(r, n)
+		}
+		other := r.Bytes(r.Pick([]int{1, 3, 40, 254, 255}[r.Pick(5)] + 1))
+		c.Eval(1)
+		c.Nontrivial([]byte("string-in-use"), content, other)
+		for role := 0; role < 2; role++ {
+			k, v := content, other
+			if role == 1 {
+				k, v = other, content
+			}
+			sh := gen.Shape{"len": n, "role": []string{"key", "value"}[role], "other_len": len(other)}
+			pairs := []rm.Pair{{K: k, V: v}}
+			switch (i / 512) % 3 {
+			case 1:
+				pairs = append(pairs, rm.Pair{K: append([]byte{0xff}, r.Bytes(2)...), V: r.Bytes(r.Pick(4))})
+			case 2:
+				pairs = append([]rm.Pair{{K: []byte{0}, V: r.Bytes(r.Pick(4))}}, pairs...)
+			}
+			enc := rm.Mapping{Pairs: pairs}.Encode()
+			want := map[string]string{}
+			for _, p := range pairs {
+				want[string(p.K)] = string(p.V)
+			}
+			if len(want) != len(pairs) {
+				continue
+			}
+			same := func(got map[string]string) bool {
+				if len(got) != len(want) {
+					return false
+				}
+				for a, b := range want {
+					if x, ok := got[a]; !ok || x != b {
+						return false
+					}
+				}
+				return true
+			}
+			mp, rem, errs := data.ReadMapping(enc)
+			if len(errs) != 0 || len(rem) != 0 {
+				c.Violate("data.ReadMapping", "in-domain-string-lost", sh, enc, fmt.Sprintf("a mapping holding a %d-byte %s is not read cleanly: %v", n, sh["role"], errs))
+			} else if got, err := mp.ToGoMap(); err != nil || !same(got) || !bytes.Equal(mp.Data(), enc) {
+				c.Violate("data.ReadMapping", "in-domain-string-lost", sh, enc, fmt.Sprintf("a %d-byte %s does not survive reading", n, sh["role"]))
+			}
+			if gm, err := data.GoMapToMapping(want); err != nil || gm == nil {
+				c.Violate("data.GoMapToMapping", "in-domain-value-rejected", sh, enc, fmt.Sprint(err))
+			} else if d := gm.Data(); !bytes.Equal(d, enc) && len(pairs) == 1 {
+				c.Violate("data.GoMapToMapping", "not-length-prefixed", sh, enc, fmt.Sprintf("a single pair with a %d-byte %s is written as %d bytes, expected %d", n, sh["role"], len(d), len(enc)))
+			}
+		}
+		// transport style
+		a := gen.RouterAddress(r)
+		a.Style = content
+		enc := append(a.Encode(), 0x80, 0xBF)
+		sh := gen.Shape{"len": n, "role": "style"}
+		ra, rem, err := router_address.ReadRouterAddress(enc)
+		c.OpResult("router_address.ReadRouterAddress", err == nil)
+		if err == nil {
+			st := ra.TransportStyle()
+			if got, derr := st.Data(); derr != nil || got != string(content) || len(rem) != 2 {
+				c.Violate("router_address.ReadRouterAddress", "in-domain-string-lost", sh, enc, fmt.Sprintf("a %d-byte transport style is read back as %d bytes (%v), remainder %d", n, len(got), derr, len(rem)))
+			}
+		}
+	})
+	c.Exhaustive("strings of every length 0..255 as mapping key, mapping value and transport style")
+
+	// a 2-byte Integer where the library encodes one itself: the size field of a Mapping, for bodies
+	// of exactly 65,530 .. 65,540 bytes (fits: the field is the body length; does not fit: rejected,
+	// never the low 16 bits)
+	c.Job("integer-in-use", 11*3, func(i int, r *core.Rand) {
+		target := 65530 + i%11
+		pairs := []int{257, 300, 512}[i/11]
+		g := mapOfExactSize(r, target, pairs)
+		if mapSize(g) != target {
+			c.FloorFail(fmt.Sprintf("generator produced size %d for target %d", mapSize(g), target))
+			return
+		}
+		c.Eval(1)
+		c.Nontrivial([]byte("mapping-size"), []byte(fmt.Sprint(target, pairs)))
+		sh := gen.Shape{"body": target, "pairs": pairs}
+		m, err := data.GoMapToMapping(g)
+		c.OpResult("data.GoMapToMapping", err == nil)
+		if target > 65535 {
+			if err == nil && m != nil {
+				d := m.Data()
+				c.Violate("data.GoMapToMapping", "out-of-domain-accepted", sh, head(d, 16), fmt.Sprintf("a body of %d bytes does not fit a 2-byte size; converted with size field %d", target, binary.BigEndian.Uint16(d)))
+			}
+			return
+		}
+		if err != nil || m == nil {
+			c.Violate("data.GoMapToMapping", "in-domain-value-rejected", sh, nil, fmt.Sprint(err))
+			return
+		}
+		if d := m.Data(); len(d) != target+2 || int(binary.BigEndian.Uint16(d)) != target {
+			c.Violate("data.Mapping.Data", "stored-value-differs", sh, head(d, 16), fmt.Sprintf("body of %d bytes written as %d bytes with size field %d", target, len(d)-2, binary.BigEndian.Uint16(d)))
+		}
+	})
 
 	// readers: all (declared length, available length) combinations
 	c.Job("short-reads", 301*301/4+1, func(i int, r *core.Rand) {
